@@ -530,8 +530,7 @@ func selClass(sel *rt.Selector, withAgg bool) string {
 // has one or two signatures for every seed, fine enough that a different defect gets another one.
 //
 //	single selector:  {} | selector | duration-only | duration-or, "selector" also with its aggregator kind
-//	chains:           chain-with-duration-only (the empty-condition class) ≻ chainN(&&|‖|mixed) for N ≥ 3
-//	                  ≻ chain2(op)-with-duration-or ≻ selector&&selector | selector||selector
+//	chains:           chainN(&&|‖|mixed) for N ≥ 3, <class>&&<class> | <class>||<class> for two selectors
 func shapeClass(s *rt.Script) string {
 	return shapeClass0(s)
 }
@@ -566,25 +565,12 @@ func hasLongDecimal(s *rt.Script) bool {
 }
 
 func shapeClass0(s *rt.Script) string {
-	durOnly, durOr := false, false
-	for _, sel := range s.Sels {
-		switch selClass(sel, false) {
-		case "duration-only":
-			durOnly = true
-		case "duration-or":
-			durOr = true
-		}
-	}
 	switch n := len(s.Sels); {
 	case n == 1:
 		if c := selClass(s.Sels[0], false); c != "selector" {
 			return c
 		}
 		return selClass(s.Sels[0], true)
-	case durOnly:
-		return "chain-with-duration-only"
-	case n == 2 && durOr:
-		return "chain2(" + s.Ops[0] + ")-with-duration-or"
 	case n == 2:
 		return selClass(s.Sels[0], false) + s.Ops[0] + selClass(s.Sels[1], false)
 	default:
